@@ -1,6 +1,6 @@
 \* EXPECTED VIOLATION ExecBatchBound: mutant bigbatch
 CONSTANTS NTx = 3 Kind <- KindS Sender <- SenderS Nonce <- NonceS NAccs = 1 Accs <- MCAccs StartEmpty = FALSE
-  Max = 3 NPushers = 1 NConsumers = 1 Batch = 2
+  Max = 3 NPushers = 1 NConsumers = 1 Batch = 1
   MaxPush = 4 MaxBlocks = 1 MaxFail = 0 MaxCrash = 0 MaxClose = 1 MaxPops = 2 MaxExecErr = 0 MaxFatal = 0
   DedupFix = TRUE OverflowFix = TRUE Mutant = "bigbatch"
 INIT Init
